@@ -316,32 +316,31 @@ class UnsupervisedOPF(OPF):
             distances.fill(c.FLOAT_MAX)
 
             for j in range(self.subgraph.n_nodes):
-                if j != i:
-                    if self.pre_computed_distance:
-                        distances[best_k] = self.pre_distances[
-                            pred_subgraph.nodes[i].idx
-                        ][self.subgraph.nodes[j].idx]
-                    else:
-                        distances[best_k] = self.distance_fn(
-                            pred_subgraph.nodes[i].features,
-                            self.subgraph.nodes[j].features,
-                        )
+                if self.pre_computed_distance:
+                    distances[best_k] = self.pre_distances[
+                        pred_subgraph.nodes[i].idx
+                    ][self.subgraph.nodes[j].idx]
+                else:
+                    distances[best_k] = self.distance_fn(
+                        pred_subgraph.nodes[i].features,
+                        self.subgraph.nodes[j].features,
+                    )
 
-                    neighbours_idx[best_k] = j
+                neighbours_idx[best_k] = j
 
-                    cur_k = best_k
-                    while cur_k > 0 and distances[cur_k] < distances[cur_k - 1]:
-                        distances[cur_k], distances[cur_k - 1] = (
-                            distances[cur_k - 1],
-                            distances[cur_k],
-                        )
+                cur_k = best_k
+                while cur_k > 0 and distances[cur_k] < distances[cur_k - 1]:
+                    distances[cur_k], distances[cur_k - 1] = (
+                        distances[cur_k - 1],
+                        distances[cur_k],
+                    )
 
-                        neighbours_idx[cur_k], neighbours_idx[cur_k - 1] = (
-                            neighbours_idx[cur_k - 1],
-                            neighbours_idx[cur_k],
-                        )
+                    neighbours_idx[cur_k], neighbours_idx[cur_k - 1] = (
+                        neighbours_idx[cur_k - 1],
+                        neighbours_idx[cur_k],
+                    )
 
-                        cur_k -= 1
+                    cur_k -= 1
 
             density = 0.0
             for k in range(best_k):
